@@ -339,6 +339,31 @@ def underscore_names(ctx):
                     ctx.fail("an unknown operation name does not raise MethodNotFound", meta, got, "MethodNotFound")
 
 
+def port_without_address(ctx):
+    """A port that declares no address has none: its operations never go to the endpoint of another port (the port
+    before it, the first port), whichever selector reaches them; the ports around it keep their own."""
+    schema = '<xsd:element name="f"><xsd:complexType><xsd:sequence/></xsd:complexType></xsd:element>'
+    w = wsdlkit.wsdl_doc(schema, "f", None, location="http://h.invalid/first").decode()
+    w = w.replace('</wsdl:port>', '</wsdl:port><wsdl:port name="P2" binding="w:B"></wsdl:port><wsdl:port name="P3" '
+                  'binding="w:B"><soap:address location="http://h.invalid/third"/></wsdl:port>', 1)
+    tr = wsdlkit.RecordingTransport(reply=None)
+    c = wsdlkit.client(w.encode(), transport=tr)
+    for sel_name, sel in (("name", lambda p_, i_: c.service[p_]), ("index", lambda p_, i_: c.service[i_])):
+        got = {}
+        for i_, p_ in enumerate(("P", "P2", "P3")):
+            del tr.sent[:]
+            try:
+                sel(p_, i_).f()
+                got[p_] = tr.sent[-1]["url"] if tr.sent else "nothing sent"
+            except Exception as e:
+                got[p_] = "no endpoint" if not tr.sent else "raised after sending to %s" % tr.sent[-1]["url"]
+        meta = {"stream": "port-without-address", "selector": sel_name}
+        ctx.case(common.canon(meta), True)
+        want = {"P": "http://h.invalid/first", "P2": "no endpoint", "P3": "http://h.invalid/third"}
+        if got != want:
+            ctx.fail("a selector expression resolved to another endpoint than the WSDL declares for that port", meta, got, want)
+
+
 def unsupported_pair(ctx):
     """document/encoded is a style/use pair suds has no binding for: a WSDL that declares it for a direction does not
     load, or the direction has no binding - it is never presented and sent as another pair."""
@@ -376,6 +401,7 @@ def binding_kinds(ctx):
            "enc_enc": ("encoded", "encoded")}
     unsupported_pair(ctx)
     underscore_names(ctx)
+    port_without_address(ctx)
     w = ['<?xml version="1.0"?><wsdl:definitions targetNamespace="%s" xmlns:wsdl="http://schemas.xmlsoap.org/wsdl/" '
          'xmlns:w="%s" xmlns:soap="http://schemas.xmlsoap.org/wsdl/soap/" xmlns:xsd="http://www.w3.org/2001/XMLSchema">'
          '<wsdl:message name="in"><wsdl:part name="a" type="xsd:string"/></wsdl:message>'
